@@ -29,6 +29,8 @@ def fixed_configs(tier, seed, keras3=False):
               out.append({"cls": cls, "kw": kw})
   for bits in bits_rng:
     for integer in ints:
+      if integer < 0:
+        continue      # quantized_relu computes K.pow(2, integer) on ints: negative integer bits are not supported
       for slope in (0.0, 0.5, 0.25, 0.125, 0.03125):
         for clip_mode in ("qclip", "none", "ub"):
           kw = {"bits": bits, "integer": integer, "negative_slope": slope}
